@@ -37,6 +37,8 @@ type Gen struct {
 	removed []string        // names that were removed (re-creating them exercises tombstones)
 	used    map[string]bool // every name ever handed out (clean mode never renames onto one)
 	sized   map[string]bool // files that (probably) have content
+	// likeDone: the LIKE-confusable sibling scenario was issued in this history
+	likeDone bool
 }
 
 func NewGen(seed int64, p Profile) *Gen {
@@ -164,6 +166,36 @@ func (g *Gen) Next() Call {
 		return c
 	}
 	g.clock += 1_000_000_007
+	if g.P.Wild && !g.P.ReadOnly && !g.likeDone && g.R.Intn(6) == 0 {
+		// sibling directories that SQLite's LIKE does not tell apart (wildcards _ and %, ASCII
+		// case), each with a child, and then a recursive remove or a rename of one of them
+		g.likeDone = true
+		pair := [][2]string{{"/a_", "/ab"}, {"/a%", "/axy"}, {"/ab", "/AB"}, {"/a_", "/a_b"}}[g.R.Intn(4)]
+		var seq []Call
+		for k, d := range pair {
+			g.nextH++
+			id := fmt.Sprint(g.nextH)
+			if !g.isShadowDir(d) {
+				g.dirs = append(g.dirs, d)
+			}
+			f := d + "/" + []string{"x", "y"}[k]
+			g.files = append(g.files, f)
+			g.sized[f] = true
+			seq = append(seq, Call{"mkdir", []string{enc(d), "493"}}, Call{"create", []string{id, enc(f)}},
+				Call{"hwrite", []string{id, fmt.Sprint(10 + k), fmt.Sprint(g.R.Intn(1 << 20))}}, Call{"hclose", []string{id}})
+		}
+		if g.R.Intn(2) == 0 {
+			seq = append(seq, Call{"removeall", []string{enc(pair[0])}})
+			g.removeShadow(pair[0])
+		} else {
+			to := g.freshName()
+			seq = append(seq, Call{"rename", []string{enc(pair[0]), enc(to)}})
+			g.removeShadow(pair[0])
+			g.dirs = append(g.dirs, to)
+		}
+		g.pending = seq[1:]
+		return seq[0]
+	}
 	r := g.R.Intn(100)
 	ro := g.P.ReadOnly
 	switch {
